@@ -58,6 +58,8 @@ def cases(tier, seed):
     for epochs in range(5):
         for rep in ("float", "jax0d"):
             out.append({"kind": "epoch", "epochs": epochs, "rep": rep, "depth": 5})
+    for epochs in (0, 1, 2):
+        out.append({"kind": "train", "cond": "EpochStop", "patience": 0, "drop": 3, "epochs": epochs, "cost": 30})
     for cond in ("TrainLoss", "ValLoss", "EpochStop"):
         for patience in (0, 1, 2):
             for drop in (1, 3, 8):  # drop=8: the loss reaches exactly 0 and stays there
@@ -251,7 +253,8 @@ def _train(case):
             calls.append((epoch, float(model.w), None if tl is None else float(tl), None if vl is None else float(vl), bool(r)))
             return r
 
-    cond = Mon(3) if case["cond"] == "EpochStop" else Mon(patience=patience, min_delta=0)
+    n_epochs = case.get("epochs", 3)
+    cond = Mon(n_epochs) if case["cond"] == "EpochStop" else Mon(patience=patience, min_delta=0)
     X = geom.MultiImage({(0, 0): jnp.ones((2, 1, 2, 2))}, 2)
     v = []
     try:
@@ -263,7 +266,7 @@ def _train(case):
     w = lambda n: min(n, drop) * lr
     L = lambda n: max(1.0 - w(n), floor)
     if case["cond"] == "EpochStop":
-        exp_epoch, exp_w = 3, w(3)
+        exp_epoch, exp_w = n_epochs, w(n_epochs)
     else:
         ref = RefPatience(patience, 0)
         n = 0
